@@ -62,6 +62,10 @@ OBJ_DSL = {
     "mk_bytes": lambda t: SV("obj", PyObj.PBytes(t)),
     "mk_str": lambda t: SV("obj", PyObj.PStr(t)),
     "float_is_zero": lambda t: sv_bool(FLOAT_ISZERO(PyObj.pfloat(t))),
+    "is_finf": lambda t: sv_bool(z3.And(PyObj.is_PFloat(t), PyObj.pfloat(t) == 3)),
+    "is_fnan": lambda t: sv_bool(z3.And(PyObj.is_PFloat(t), PyObj.pfloat(t) == 4)),
+    "is_fninf": lambda t: sv_bool(z3.And(PyObj.is_PFloat(t), PyObj.pfloat(t) == 7)),
+    "mk_float_id": lambda t: SV("obj", PyObj.PFloat(t)),
     "msg_is_default": lambda t: sv_bool(MSG_ISDEF(t)),
 }
 
@@ -197,9 +201,9 @@ class SpecLib:
             return sv_int(PyObj.pdict(to_obj(pos[0])))
         if name == "mk_enum":
             return SV("obj", PyObj.PEnum(ex.as_int(pos[0], st), ex.as_int(pos[1], st)))
-        if name in ("mk_int", "mk_bool", "mk_bytes", "mk_str"):
+        if name in ("mk_int", "mk_bool", "mk_bytes", "mk_str", "mk_float_id"):
             a = pos[0]
-            t = ex.as_int(a, st) if name == "mk_int" else (ex.truth(a) if name == "mk_bool" else a.t)
+            t = ex.as_int(a, st) if name in ("mk_int", "mk_float_id") else (ex.truth(a) if name == "mk_bool" else a.t)
             return OBJ_DSL[name](t)
         if name in OBJ_DSL:
             return OBJ_DSL[name](to_obj(pos[0]))
